@@ -14,6 +14,7 @@ import ThaiLintModel.C07.Drv
 import ThaiLintModel.C08.Drv
 import ThaiLintModel.C09.Drv
 import ThaiLintModel.C10.Drv
+import ThaiLintModel.C12.Drv
 import ThaiLintModel.C14.Drv
 import ThaiLintModel.C15.Drv
 import ThaiLintModel.C16.Drv
@@ -34,6 +35,7 @@ def dispatch (j : Json) : Json :=
   | "C08" => ThaiLintModel.C08.handle j
   | "C09" => ThaiLintModel.C09.handle j
   | "C10" => ThaiLintModel.C10.handle j
+  | "C12" => ThaiLintModel.C12.handle j
   | "C14" => ThaiLintModel.C14.handle j
   | "C15" => ThaiLintModel.C15.handle j
   | "C16" => ThaiLintModel.C16.handle j
